@@ -1,0 +1,30 @@
+//go:build verif
+
+package sqlite
+
+import (
+	"context"
+	"database/sql"
+
+	"github.com/high-moctane/mocrelay"
+)
+
+// Exports for the verification harness in /verif (build tag verif only).
+
+func VerifInsertEvents(ctx context.Context, db *sql.DB, seed uint32, events []*mocrelay.Event) error {
+	return insertEvents(ctx, db, seed, events)
+}
+
+func VerifQueryEvent(
+	ctx context.Context,
+	db *sql.DB,
+	seed uint32,
+	fs []*mocrelay.ReqFilter,
+	maxLimit uint,
+) ([]*mocrelay.Event, error) {
+	return queryEvent(ctx, db, seed, fs, maxLimit)
+}
+
+func VerifSetOrLoadXXHashSeed(ctx context.Context, db *sql.DB) (uint32, error) {
+	return setOrLoadXXHashSeed(ctx, db)
+}
